@@ -239,21 +239,41 @@ theorem lexstep_comment (v stop : Cps) (h : (match v with
     · exact CssVerif.Tok.valueOf_plain _ _ _ (by decide) (by decide)
   · cases h
 
-theorem lexstep_number (v stop : Cps) (h1 : v.isEmpty = false) (h2 : v.all (inRanges digitR) = true)
+theorem digits_of_all {l : Cps} (h : l.all (inRanges digitR) = true) : ∀ c ∈ l, CssVerif.Tok.isDigit c = true := by
+  simp only [List.all_eq_true] at h
+  intro c hc
+  have := h c hc
+  simpa [inRanges, digitR, CssVerif.Tok.isDigit] using this
+
+theorem lexstep_number (v stop : Cps) (h : (match v with
+      | c :: r => if c == 43 || c == 45 then !r.isEmpty && r.all (inRanges digitR) else (c :: r).all (inRanges digitR)
+      | [] => false) = true)
     (hs : CssVerif.Tok.HeadIn (fun c => inRanges numStopR c = true) stop) : Step ⟨.number, v⟩ stop := by
   cases v with
-  | nil => simp at h1
-  | cons d ds =>
-    simp only [List.all_eq_true] at h2
-    have hd : ∀ c ∈ d :: ds, CssVerif.Tok.isDigit c = true := by
-      intro c hc
-      have := h2 c hc
-      simpa [inRanges, digitR, CssVerif.Tok.isDigit] using this
-    apply lexstep_of _ stop "NUMBER" rfl (by simp)
-    · intro c' t e; simp only [List.cons.injEq] at e; obtain ⟨rfl, _⟩ := e
-      exact CssVerif.Tok.not_fast_of_ranges [(48, 57)] (by decide) _ (h2 d (by simp))
-    · exact CssVerif.Tok.scan_number_stop true d ds stop hd hs
-    · exact CssVerif.Tok.valueOf_plain _ _ _ (by decide) (by decide)
+  | nil => simp at h
+  | cons c r =>
+    simp only at h
+    split at h
+    · rename_i hsg
+      simp only [Bool.or_eq_true, beq_iff_eq] at hsg
+      simp only [Bool.and_eq_true, Bool.not_eq_true'] at h
+      cases r with
+      | nil => simp at h
+      | cons d ds =>
+        have hd := digits_of_all h.2
+        apply lexstep_of _ stop "NUMBER" rfl (by simp)
+        · intro c' t e; simp only [List.cons.injEq] at e; obtain ⟨rfl, _⟩ := e
+          rcases hsg with rfl | rfl <;> decide
+        · have := CssVerif.Tok.scan_signed_number true c hsg d ds stop hd hs
+          simpa using this
+        · exact CssVerif.Tok.valueOf_plain _ _ _ (by decide) (by decide)
+    · have hd := digits_of_all h
+      apply lexstep_of _ stop "NUMBER" rfl (by simp)
+      · intro c' t e; simp only [List.cons.injEq] at e; obtain ⟨rfl, _⟩ := e
+        have := hd c (by simp)
+        exact CssVerif.Tok.not_fast_of_ranges [(48, 57)] (by decide) _ (by simpa [CssVerif.Tok.inR, CssVerif.Tok.isDigit] using this)
+      · exact CssVerif.Tok.scan_number_stop true c r stop hd hs
+      · exact CssVerif.Tok.valueOf_plain _ _ _ (by decide) (by decide)
 
 theorem headIn_ne61 {stop : Cps} (h : CssVerif.Tok.HeadIn (fun c => (c != 61) = true) stop) :
     CssVerif.Tok.HeadIn (fun x => x ≠ 61) stop :=
@@ -281,9 +301,7 @@ theorem tok_step (t : Tok) (stop : Cps) (hp : t.plain = true)
     exact lexstep_s v stop hp.1 hp.2 (CssVerif.Tok.headIn_mono hs (fun c hc => by simpa [Tok.follow] using hc))
   case string => exact lexstep_string v stop hp
   case comment => exact lexstep_comment v stop hp
-  case number =>
-    simp only [Bool.and_eq_true, Bool.not_eq_true'] at hp
-    exact lexstep_number v stop hp.1 hp.2 (by simpa [Tok.follow] using hs)
+  case number => exact lexstep_number v stop hp (by simpa [Tok.follow] using hs)
   case dimension =>
     simp only [Bool.and_eq_true, Bool.not_eq_true'] at hp
     exact lexstep_dimension v stop hp.1 hp.2 (by simpa [Tok.follow] using hs)
@@ -297,7 +315,7 @@ theorem tok_step (t : Tok) (stop : Cps) (hp : t.plain = true)
     split at hp
     · rename_i c
       simp only [plainChars, List.contains_cons, List.contains_nil, Bool.or_false, Bool.or_eq_true, beq_iff_eq] at hp
-      rcases hp with rfl | rfl | rfl | rfl | rfl | rfl | rfl | rfl | rfl | rfl | rfl | rfl
+      rcases hp with rfl | rfl | rfl | rfl | rfl | rfl | rfl | rfl | rfl | rfl | rfl | rfl | rfl
       · exact lexstep_fast 44 stop (by decide)
       · exact lexstep_fast 58 stop (by decide)
       · exact lexstep_fast 62 stop (by decide)
@@ -314,6 +332,10 @@ theorem tok_step (t : Tok) (stop : Cps) (hp : t.plain = true)
           (CssVerif.Tok.headIn_mono hs (fun c hc => by
             have : (!inRanges digitR c) = true ∧ c ≠ 46 := by simpa [Tok.follow] using hc
             exact ⟨not_digit_of this.1, this.2⟩)))
+      · exact lexstep_char_scan 45 stop (by decide) (CssVerif.Tok.scan_minus true stop
+          (CssVerif.Tok.headIn_mono hs (fun c hc => by
+            have h' : inRanges minusStopR c = true := by simpa [Tok.follow] using hc
+            exact h')))
     · cases hp
 
 /-! ## a chain of tokens -/
